@@ -1,4 +1,6 @@
 """C06 - SRT/WebVTT cues carry exactly the visible text over exactly its intervals."""
+from fractions import Fraction
+
 from vt.gen import model_docs
 from vt.props import _cuework
 from vt.ref import build
@@ -17,7 +19,7 @@ ASSUMPTIONS = [
   "text compared as token lines (unique tokens identify every visible non-space character)",
 ]
 REQUIRED = ["outputs:srt", "outputs:vtt", "cues:compared", "class:multi-region-active", "class:ruby", "class:preserve-space",
-            "class:regions:0", "class:regions:many"]
+            "class:regions:0", "class:regions:many", "class:carry-offset"]
 SHARD_TIMEOUT = {"quick": 900, "thorough": 7200}
 N = {"quick": 30, "thorough": 1250}
 
@@ -26,8 +28,27 @@ def plan(tier, seed):
   return [{"n": N[tier], "shard": i} for i in range(16)]
 
 
+# offsets just below a minute / hour boundary and off the millisecond grid: rounding to the nearest millisecond carries into the
+# seconds, minutes and hours fields of the printed time codes
+CARRY_OFFSETS = [Fraction(599996, 10000), Fraction(359999975, 100000), Fraction(1199997, 10000), Fraction(599995, 10000),
+                 Fraction(3599) + Fraction(9996, 10000), Fraction(59) + Fraction(9994, 10000)]
+
+
 def gen(rng):
-  return model_docs.generate(rng, "text", None, p_uspace=0.1)
+  adoc, classes = model_docs.generate(rng, "text", None, p_uspace=0.1)
+  if adoc.body is not None and rng.random() < 0.25:
+    off = rng.choice(CARRY_OFFSETS)
+    adoc.body.begin = (adoc.body.begin or 0) + off
+    if adoc.body.end is not None:
+      adoc.body.end += off
+    for r in adoc.regions:
+      # keep timed regions aligned with the shifted content
+      if r.begin is not None:
+        r.begin += off
+      if r.end is not None:
+        r.end += off
+    classes = set(classes) | {"carry-offset"}
+  return adoc, classes
 
 
 def run(ctx, params):
